@@ -341,6 +341,14 @@ def step_driver(prop, drv_rel):
         return exe, 'built', False
 
 
+def _die_with_parent():
+    try:
+        import ctypes, signal as _sig
+        ctypes.CDLL('libc.so.6', use_errno=True).prctl(1, _sig.SIGKILL)     # PR_SET_PDEATHSIG
+    except Exception:
+        pass
+
+
 class Driver:
     def __init__(self, exe):
         self.exe = str(exe)
@@ -350,8 +358,13 @@ class Driver:
         if not reqs:
             return []
         data = '\n'.join(sx.dumps(r) for r in reqs) + '\n'
-        p = subprocess.run(['bash', '-c', 'ulimit -s unlimited 2>/dev/null; exec "$0"', self.exe],
-                           input=data, stdout=subprocess.PIPE, stderr=subprocess.PIPE, text=True)
+        # the driver dies with this process (PR_SET_PDEATHSIG) and cannot exhaust the machine: address space and
+        # CPU time are capped (a model that diverges on some request is then a failed batch, not a stuck host)
+        mem_kb = int(os.environ.get('VERIF_DRIVER_MEM_KB', str(16 * 1024 * 1024)))
+        p = subprocess.run(['bash', '-c', 'ulimit -s unlimited 2>/dev/null; ulimit -v %d 2>/dev/null; '
+                            'ulimit -t 14400 2>/dev/null; exec "$0"' % mem_kb, self.exe],
+                           input=data, stdout=subprocess.PIPE, stderr=subprocess.PIPE, text=True,
+                           preexec_fn=_die_with_parent)
         lines = p.stdout.split('\n')
         if lines and lines[-1] == '':
             lines.pop()
